@@ -8,6 +8,7 @@ package types
 //@ func (BridgeConfig) Validate
 //@   ensures err == nil ==> config.FinalizationPeriod > 0                                        // C05: period_positive
 //@   ensures err == nil ==> addrOK(ac, config.Challenger) && addrOK(ac, config.Proposer)        // C12: roles_are_addresses
+//@   ensures err == nil ==> config.BatchInfo.ChainType != 0 && len(config.BatchInfo.Submitter) > 0 && config.SubmissionInterval != 0 && config.SubmissionStartHeight != 0   // C16: accepts_only_well_formed_config
 //@   ensures addrOK(ac, config.Challenger) && addrOK(ac, config.Proposer) && config.BatchInfo.ChainType != 0 && len(config.BatchInfo.Submitter) > 0
 //@        && config.FinalizationPeriod > 0 && config.SubmissionInterval != 0 && config.SubmissionStartHeight != 0 ==> err == nil           // C12: accepts_every_well_formed_config
 
@@ -51,3 +52,18 @@ package types
 //@   ensures err == nil ==> forall j int :: 0 <= j && j < len(msg.WithdrawalProofs) ==> len(msg.WithdrawalProofs[j]) == 32   // C03: proof_lengths
 //@   loop 0 invariant 0 <= $i && $i <= len(msg.WithdrawalProofs)
 //@   loop 0 invariant forall j int :: 0 <= j && j < $i ==> len(msg.WithdrawalProofs[j]) == 32
+
+// ---- genesis validation (C16): accepts exactly the well-formed genesis states ------------------------------------------
+//@ func ValidateGenesis
+//@   let bs := data.Bridges
+//@   ensures err == nil ==> data.NextBridgeId >= 1 && (forall t int :: 0 <= t && t < len(bs) ==> (addrOK(ac, bs[t].BridgeConfig.Challenger) && addrOK(ac, bs[t].BridgeConfig.Proposer) && bs[t].BridgeConfig.BatchInfo.ChainType != 0 && len(bs[t].BridgeConfig.BatchInfo.Submitter) > 0 && bs[t].BridgeConfig.FinalizationPeriod > 0 && bs[t].BridgeConfig.SubmissionInterval != 0 && bs[t].BridgeConfig.SubmissionStartHeight != 0 && bs[t].BridgeId != 0 && bs[t].NextL1Sequence >= 1 && (forall u int :: 0 <= u && u < len(bs[t].TokenPairs) ==> validDenom(bs[t].TokenPairs[u].L1Denom) && validDenom(bs[t].TokenPairs[u].L2Denom)) && (forall u int :: 0 <= u && u < len(bs[t].ProvenWithdrawals) ==> len(bs[t].ProvenWithdrawals[u]) == 32) && (forall u int :: 0 <= u && u < len(bs[t].Proposals) ==> bs[t].Proposals[u].OutputIndex != 0 && len(bs[t].Proposals[u].OutputProposal.OutputRoot) == 32) && len(bs[t].BatchInfos) > 0 && bs[t].BatchInfos[len(bs[t].BatchInfos) - 1].BatchInfo == bs[t].BridgeConfig.BatchInfo && len(bs[t].BatchInfos[0].Output.OutputRoot) == 0 && bs[t].BatchInfos[0].Output.L1BlockNumber == 0 && bs[t].BatchInfos[0].Output.L2BlockNumber == 0))   // C16: only_well_formed_genesis_is_accepted
+//@   ensures data.NextBridgeId >= 1 && coinsValid(data.Params.RegistrationFee) && (forall t int :: 0 <= t && t < len(bs) ==> (addrOK(ac, bs[t].BridgeConfig.Challenger) && addrOK(ac, bs[t].BridgeConfig.Proposer) && bs[t].BridgeConfig.BatchInfo.ChainType != 0 && len(bs[t].BridgeConfig.BatchInfo.Submitter) > 0 && bs[t].BridgeConfig.FinalizationPeriod > 0 && bs[t].BridgeConfig.SubmissionInterval != 0 && bs[t].BridgeConfig.SubmissionStartHeight != 0 && bs[t].BridgeId != 0 && bs[t].NextL1Sequence >= 1 && (forall u int :: 0 <= u && u < len(bs[t].TokenPairs) ==> validDenom(bs[t].TokenPairs[u].L1Denom) && validDenom(bs[t].TokenPairs[u].L2Denom)) && (forall u int :: 0 <= u && u < len(bs[t].ProvenWithdrawals) ==> len(bs[t].ProvenWithdrawals[u]) == 32) && (forall u int :: 0 <= u && u < len(bs[t].Proposals) ==> bs[t].Proposals[u].OutputIndex != 0 && len(bs[t].Proposals[u].OutputProposal.OutputRoot) == 32) && len(bs[t].BatchInfos) > 0 && bs[t].BatchInfos[len(bs[t].BatchInfos) - 1].BatchInfo == bs[t].BridgeConfig.BatchInfo && len(bs[t].BatchInfos[0].Output.OutputRoot) == 0 && bs[t].BatchInfos[0].Output.L1BlockNumber == 0 && bs[t].BatchInfos[0].Output.L2BlockNumber == 0)) ==> err == nil   // C16: every_well_formed_genesis_is_accepted
+//@   loop 0 invariant 0 <= $i && $i <= len(bs)
+//@   loop 0 invariant forall t int :: 0 <= t && t < $i ==> (addrOK(ac, bs[t].BridgeConfig.Challenger) && addrOK(ac, bs[t].BridgeConfig.Proposer) && bs[t].BridgeConfig.BatchInfo.ChainType != 0 && len(bs[t].BridgeConfig.BatchInfo.Submitter) > 0 && bs[t].BridgeConfig.FinalizationPeriod > 0 && bs[t].BridgeConfig.SubmissionInterval != 0 && bs[t].BridgeConfig.SubmissionStartHeight != 0 && bs[t].BridgeId != 0 && bs[t].NextL1Sequence >= 1 && (forall u int :: 0 <= u && u < len(bs[t].TokenPairs) ==> validDenom(bs[t].TokenPairs[u].L1Denom) && validDenom(bs[t].TokenPairs[u].L2Denom)) && (forall u int :: 0 <= u && u < len(bs[t].ProvenWithdrawals) ==> len(bs[t].ProvenWithdrawals[u]) == 32) && (forall u int :: 0 <= u && u < len(bs[t].Proposals) ==> bs[t].Proposals[u].OutputIndex != 0 && len(bs[t].Proposals[u].OutputProposal.OutputRoot) == 32) && len(bs[t].BatchInfos) > 0 && bs[t].BatchInfos[len(bs[t].BatchInfos) - 1].BatchInfo == bs[t].BridgeConfig.BatchInfo && len(bs[t].BatchInfos[0].Output.OutputRoot) == 0 && bs[t].BatchInfos[0].Output.L1BlockNumber == 0 && bs[t].BatchInfos[0].Output.L2BlockNumber == 0)
+//@   loop 1 invariant 0 <= $i && $i <= len(bridge.TokenPairs)
+//@   loop 1 invariant forall u int :: 0 <= u && u < $i ==> validDenom(bridge.TokenPairs[u].L1Denom) && validDenom(bridge.TokenPairs[u].L2Denom)
+//@   loop 2 invariant 0 <= $i && $i <= len(bridge.ProvenWithdrawals)
+//@   loop 2 invariant forall u int :: 0 <= u && u < $i ==> len(bridge.ProvenWithdrawals[u]) == 32
+//@   loop 3 invariant 0 <= $i && $i <= len(bridge.Proposals)
+//@   loop 3 invariant forall u int :: 0 <= u && u < $i ==> bridge.Proposals[u].OutputIndex != 0 && len(bridge.Proposals[u].OutputProposal.OutputRoot) == 32
+//@   assigns \nothing
